@@ -127,7 +127,8 @@ class NodeValidator():
         #print()
         #print(f"validate_node {node} {path} {roles} {problems}")
 
-        if not node or not isinstance(node, dict):
+        # An empty object is still validated: it lacks whatever its roles require.
+        if not isinstance(node, dict):
             return
 
         # May have more roles based on field presence/value etc
